@@ -1200,6 +1200,23 @@ def generate_cases(tier, seed, kinds=('sentence', 'mutation', 'tests', 'soup', '
     cases = []
     sg = SentenceGen(im.productions(), rng)
     sentences = []
+    if 'spelling' in kinds:
+        # the call spellings f(x, a) / x.f(a) / x | f(a) inside larger sentences (unary operators, powers, subscripts and
+        # other calls around them), each sentence also with its method dots and pipes swapped
+        got = 0
+        tries = 0
+        while got < (700 if q else 6000) and tries < 200000:
+            tries += 1
+            sn = sg.sentence(rng.choice([3, 4, 5, 6]))
+            if len(sn) > 40 or not any(t in ('.', '|') for t in sn):
+                continue
+            got += 1
+            cases.append({'text': join_tokens(sn, rng), 'origin': 'spelling'})
+            sw = [{'.': '|', '|': '.'}.get(t, t) if rng.random() < 0.7 else t for t in sn]
+            cases.append({'text': join_tokens(sw, rng), 'origin': 'spelling'})
+        for s in ['-r.f(a)', '-r | f(a)', 'not r.f()', 'not r | f()', 'x ** -r.f(a)', 'y = -r[0].f(a).g()', '-r.f', '- r | f', 'a.f(b).g(c) | h(d)',
+                  '-a ** b.f()', 'not a in b.f()', 'a if -b.f() else c | g()', 'a => -a.f()', '[-a.f(), not b | g()]', '{"k": -a.f()}']:
+            cases.append({'text': s, 'origin': 'spelling'})
     if 'sentence' in kinds or 'mutation' in kinds or 'truncation' in kinds:
         want = 1500 if q else 12000
         maxtok = 40 if q else 120
@@ -1429,7 +1446,7 @@ def check_C06(tier='quick', seed=0, deviations=ALL_DEVIATIONS):
 def check_C15(tier='quick', seed=0, deviations=ALL_DEVIATIONS):
     st = run_parse_a(tier, seed, deviations, 'C15')
     b = _new_stats()
-    run_cases_b(generate_cases(tier, seed, ('layout', 'tests')), deviations, b)
+    run_cases_b(generate_cases(tier, seed, ('layout', 'tests', 'spelling')), deviations, b)
     return _view(_merge(st, b), 'C15')
 
 
